@@ -5,6 +5,8 @@
 #include "cell.hpp"
 #include "local_mesh_refiner.hpp"
 #include <array>
+#include <atomic>
+#include <map>
 #include <memory>
 #include <vector>
 
@@ -19,6 +21,9 @@ public:
     static vec3& force(node& n) { return n.force_; }
 #if DYNAMIC_MODEL_INDEX == 0
     static vec3& momentum(node& n) { return n.momentum_; }
+#endif
+#if CONTACT_MODEL_INDEX == 2
+    static std::map<unsigned, std::pair<unsigned, double>>& coupled_map(node& n) { return n.coupled_nodes_map_; }
 #endif
     static std::array<unsigned, 3> tri(const face& f) { return {f.n1_id_, f.n2_id_, f.n3_id_}; }
     static unsigned short& ftype(face& f) { return f.type_id_; }
